@@ -2,14 +2,18 @@
 //! generated inputs and prints one line per operation (inputs and what the
 //! implementation answered).  The Lean driver replays the lines on the model
 //! and on the reference specification.
+mod net;
 mod rng;
+mod serve;
 mod acl;
 mod addr;
 mod httpcodec;
+mod httpnet;
 mod httpstore;
 mod store;
 mod timeunit;
 mod udpcodec;
+mod udpnet;
 mod validator;
 mod wsjson;
 
@@ -36,6 +40,10 @@ fn main() {
     std::panic::set_hook(Box::new(|_| {}));
     let args: Vec<String> = std::env::args().collect();
     let family = args.get(1).map(|s| s.as_str()).unwrap_or("");
+    if family == "serve" {
+        serve::run(args.get(2).map(|s| s.as_str()).unwrap_or(""), &args[3.min(args.len())..]);
+        return;
+    }
     let seed: u64 = arg(&args, "--seed", 1);
     let cases: usize = arg(&args, "--cases", 100);
     let maxops: usize = arg(&args, "--maxops", 60);
@@ -44,12 +52,14 @@ fn main() {
     let mut out = std::io::BufWriter::new(out.lock());
     match family {
         "udpstore" => store::run(&mut out, seed, cases, maxops, &replay, false),
+        "udpnet" => udpnet::run(&mut out, seed, cases, &replay, arg(&args, "--uring-resp-buf", 2048)),
         "udpcodec" => udpcodec::run(&mut out, seed, cases, &replay),
         "wsjson" => wsjson::run(&mut out, seed, cases, &replay),
         "validator" => validator::run(&mut out, seed, cases, &replay),
         "acl" => acl::run(&mut out, seed, cases, &replay),
         "addr" => addr::run(&mut out, seed, cases, &replay),
         "timeunit" => timeunit::run(&mut out, seed, cases),
+        "httpnet" => httpnet::run(&mut out, seed, cases, &replay),
         "httpcodec" => httpcodec::run(&mut out, seed, cases, &replay),
         "httpstore" => store::run(&mut out, seed, cases, maxops, &replay, true),
         _ => {
